@@ -111,6 +111,9 @@ def step(cfg, hist):
             return r
         if obs["raised"] not in (None, "boom"):
             break
+        if cfg.get("observe") and a.sol is not None and len(a) > 1:
+            # an observer looks at the dense output between the calls (array-valued queries build internal caches)
+            a.sol(np.asarray(a.t)); a.sol(a.t[-1]); a.sol.grad(a.t[0] + (a.t[-1] - a.t[0]) * dtype(0.5))
     r.n = 1
     if obs is not None and obs["raised"] not in (None, "boom"):
         if obs["raised"] == "budget":
@@ -167,13 +170,14 @@ def configs(ctx):
                 for dn in dts:
                     tol = 1e-6 if dn != "float32" else 1e-4
                     out.append(dict(method=m, span=list(sp), dt0=dt0, dtype=dn, tol=tol))
+                    out.append(dict(method=m, span=list(sp), dt0=dt0, dtype=dn, tol=tol, observe=True))
     return out
 
 
 def run(ctx):
     depth = 3
     ctx.rule = ("E1 breadth-first search to depth %d over histories of {integrate(), integrate(mid), integrate(terminal event), faulting integrate (callback raises at its 2nd step)} "
-                "with dense output on, from 10 methods (incl. two Richardson wrappers) x 5 signed spans (forward, backward, through zero, negative times) x dtypes; "
+                "with dense output on, from 10 methods (incl. two Richardson wrappers) x 5 signed spans (forward, backward, through zero, negative times) x dtypes x {no observer, an observer issuing array / scalar / grad queries between the calls}; "
                 "after every transition all dense-output invariants are evaluated on the real object (anchoring of one piece per step, end values, end slopes = f, "
                 "lookup by the containing piece for 3 interior points per step incl. grad and array queries, accuracy against the closed form); "
                 "distinct = distinct (method, direction, op-name history, #rows) classes" % depth)
